@@ -47,17 +47,17 @@ HISTORY = {
     "C09-B": ("C09", "nested archive with a compound extension (.tar.gz / .tar.bz2 / .tar.xz) inside an archive", "caught", ""),
     "C10-A": ("C10", "7z with a folder of >= 2 files after another folder (layouts [3,2], [1,4], [2,2,1])", "caught", ""),
     "C10-B": ("C10", "deflated ZIP member whose damage breaks the deflate syntax (zlib.error instead of a CRC mismatch)", "caught", ""),
-    "C14-A": ("C14", "PDF image XObject with a filter cascade [/FlateDecode /DCTDecode]", "missed", "(pending: builder asked to render filter forms)"),
+    "C14-A": ("C14", "PDF image XObject with a filter cascade [/FlateDecode /DCTDecode]", "missed", "the C14 PDF writer renders every legal /Filter form per image (name, one-element array, cascades with Flate / ASCIIHex / ASCII85)"),
     "C14-B": ("C14", "XLSX whose drawing part names do not follow sheet order", "caught", ""),
     "C15-A": ("C15", "two PDFs sharing one embedded font, glyph set of the second a strict subset of the first, wide one first", "missed",
-              "(pending: builder asked for subset / superset glyph-set histories)"),
+              "glyph-id sets in subset / superset / overlapping / disjoint relation in all orders; documents show all glyphs; projection of overwritten glyphs; deviation FontCacheSupersetReuse"),
     "C15-B": ("C15", "two threads whose page extractions overlap and finish in entry order (lock released during the body)", "caught", ""),
     "C18-A": ("C18", "a folder item whose facet is the empty object {}", "missed",
               "the fake Graph transport now draws facet shapes ({} / {childCount} / extra keys) and optional members per item"),
     "C18-B": ("C18", "4xx other than 404 on the folder-resolution request of a filtered listing", "caught", ""),
     "C19-A": ("C19", "structural element without its optional property nested around one that has it (descendant lookup)", "caught", ""),
     "C19-B": ("C19", "bracket-only radical followed by a run mixing a mapped symbol and the closing bracket", "missed",
-              "(pending: builder asked to add such runs to the universe)"),
+              "closing runs now mix a mapped symbol, plain text and the closer; 582 more symbol trees"),
     "C02-A2": ("C02", "PPTX slide where a table (graphicFrame with a direct p:xfrm) is followed by a text shape at larger y", "caught", ""),
     "C02-B2": ("C02", "EPUB chapter: a removed element containing a different removable element with text after it", "caught by C17",
                "(C02 does not generate removable markup; the C17 check decides this clause)"),
